@@ -61,6 +61,10 @@ def explore(cfg, harness, twin=None, on_leaf=None, witness_fn=None, witness_stri
     import zlib
     from symx import core
     t0 = time.time()
+    cap = os.environ.get("VERIF_DEADLINE_S")
+    if cap:
+        # optional wall-clock cap per configuration (a capped run reports exhaustive=false, never a verdict change)
+        deadline_s = min(deadline_s, float(cap)) if deadline_s else float(cap)
     eng = core.Engine(seed=seed, solver_timeout_ms=solver_timeout_ms, max_paths=max_paths, logic=logic,
                       deadline=(t0 + deadline_s) if deadline_s else None)
 
